@@ -218,9 +218,11 @@ def sweep_case(ctx, case, hexe, dexe, bb, work, ci, quick):
                                 "ops": ops2[:1]}, key=KEY_QUANT)
     # ---- 3. binary files: build_binary (write method, options) then load the binary
     nbin = 1 if quick else 3
-    for _ in range(nbin):
-        typ = ctx.rng.choice(["probing", "trie", "trie-a", "trie-q", "trie-qa"])
-        wm = ctx.rng.choice(["mmap", "after"])
+    combos = [(ctx.rng.choice(["probing", "trie", "trie-a", "trie-q", "trie-qa"]), ctx.rng.choice(["mmap", "after"]))
+              for _ in range(nbin)]
+    if case.meta.get("unk") == "absent":     # the missing-<unk> fix-up must reach the file with either write method
+        combos = [(t, w) for t in ("probing", "trie") for w in ("after", "mmap")]
+    for typ, wm in combos:
         mult = ctx.rng.choice([1.2, 1.5, 2.0, 5.0])
         abits = ctx.rng.randrange(1, 26)
         pbits = ctx.rng.randrange(4, 26)
@@ -363,7 +365,7 @@ def run(ctx):
     n = 25 if quick else 500
     forces = [{"kind": "fanout"}, {"kind": "fanout"}, {"kind": "pruned", "chains": True, "order": 6},
               {"kind": "corpus", "chains": True, "order": 5}, {"kind": "corpus", "shared": True, "order": 4},
-              {"kind": "pruned", "shared": True, "order": 5}] + ([] if quick else [{"kind": "fanout"}] * 8)
+              {"kind": "pruned", "shared": True, "order": 5}, {"kind": "corpus", "unk": "absent", "order": 3}] + ([] if quick else [{"kind": "fanout"}] * 8)
     for ci in range(n):
         size = "small" if quick or ctx.rng.random() < 0.8 else "medium"
         force = forces[ci] if ci < len(forces) else ({"kind": "fanout"} if ctx.rng.random() < 0.03 else None)
